@@ -1180,6 +1180,19 @@ def exhaustive(family):
                             e_out = tuple(perm)
                             kw = make_kwargs(random.Random(0), [e_in], [e_out], extra_prob=0.0)
                             cases.append(_case(op, "reduce", show_op([e_in], [e_out]), [e_in], [e_out], kw, tags={"exhaustive"} | tags_of([e_in, e_out])))
+    if family == "dot-batch":
+        # two batch axes, one contracted axis, one free axis: every axis order of the first operand x a fixed spread of
+        # orders of the second (batch axes in the same / in opposite relative order, interleaved with the others)
+        a, b, c, d = Ax("a", 2), Ax("b", 3), Ax("c", 2), Ax("d", 2)
+        second = [p for i, p in enumerate(itertools.permutations([a, b, c, d])) if i % 2 == 0]
+        for p1 in itertools.permutations([a, b, c]):
+            for p2 in second:
+                for e_out in ((a, b, d), (b, d, a)):
+                    ins = [tuple(Brk((x,)) if x is c else x for x in p1), tuple(Brk((x,)) if x is c else x for x in p2)]
+                    if (p1.index(a) < p1.index(b)) == (p2.index(a) < p2.index(b)) and e_out == (b, d, a):
+                        continue
+                    cases.append(_case("dot", "dot", show_op(ins, [e_out]), ins, [e_out], {}, tags={"exhaustive", "dot-batch"} | tags_of(ins + [e_out])))
+        return cases
     if family == "argfind-brackets":
         # every bracket pattern over three axes, with unit axes in every position, for argmax (explicit '[k]' output)
         for sizes in [(2, 2, 3), (1, 2, 3), (2, 1, 3), (2, 3, 1), (1, 3, 1)]:
